@@ -305,11 +305,13 @@ def write_project(ex, case, prefix="c16_", extreme=False):
     case["spelled"] = spelled
     annual = "3110" if f < 2 else "1031"
     a, b, c, d = case["sw"]
-    return ("project=%s WeatherFolder=%s soilId=%s fcode=%s plotNr=10001 Altitude=73 Latitude=52.6 poligonID=1 "
+    from props.c10 import sweep_of, apply_sweep
+    case["sweep"] = sweep_of(case["spell_seed"] + 321)
+    return apply_sweep("project=%s WeatherFolder=%s soilId=%s fcode=%s plotNr=10001 Altitude=73 Latitude=52.6 poligonID=1 "
             "CropFileFormat=%s %s%s ManagementEvents=1 "
             "OutputIntervall=0 Dateformat=%d StartYear=%d EndDate=%s AnnualOutputDate=%s resultfolder=%s"
             % (name, case["weather"] if extreme else "historical", case["soil"], case["fcode"], case["crop_fmt"], ("fileExtension=%s " % case["ext"]) if case["ext"] else "", " ".join(case["spelled"]), f, case["begin"].year, fmt_date(case["end"], f), annual,
-               os.path.join(ex, "R", name)))
+               os.path.join(ex, "R", name)), case["sweep"])
 
 
 def parse_log_date(tok, f):
@@ -362,7 +364,7 @@ def run_cases(ctx, cases, prefix, extreme=False):
                     c["log"] = [(parse_log_date(t[0], c["fmt"]), t[1], dict(re.findall(r"(\w+): (\S*)", ln)))
                                 for ln in open(os.path.join(d, fn)).read().split("\n") if ln.strip() for t in [ln.split(" ")]]
                 if fn.startswith("C"):
-                    rows = [ln.split() for ln in open(os.path.join(d, fn)).read().split("\n") if ln.strip()]
+                    rows = [[t for t in re.split(r"[,\s]+", ln.strip()) if t] for ln in open(os.path.join(d, fn)).read().split("\n") if ln.strip()]
                     c["crec"] = [(r[0], int(r[1]), int(r[2]), r[3]) for r in rows if len(r) >= 4 and r[1].isdigit() and r[2].isdigit()]
     return rc, cases, err, ex
 
@@ -536,7 +538,7 @@ def build_records(cases, c, table=None):
             c.mismatches.append({"kind": "run-failed", "case": cs["name"], "switches": sws, "err": (cs["run"] or {}).get("err", "no run record"),
                                  "crops": [(a, str(s), str(h)) for a, s, h, _ in cs["crops"]]})
             continue
-        c.bump("switches " + sws); c.bump(FMTS[cs["fmt"]])
+        c.bump("switches " + sws); c.bump(FMTS[cs["fmt"]]); c.bump("sweep " + (cs.get("sweep") or "(project configuration)"))
         ini = cs["init"]
         automan, autofert, _, autohar = cs["sw"]
         if (ini["automan"], ini["autofert"], ini["autoirri"], ini["autohar"]) != tuple(cs["sw"]):
